@@ -8,6 +8,12 @@ meaning of an AST (`denAst`) against the Lean models of lean/PV/Model/Compile.le
 Oracles: every generated program is EXECUTED by CPython on exact environments and compared with the
 independent reference interpreter harness/oracles/pyeval.py.
 
+T-gen (extract/codegen.py, theorems PV.C13.*_eq_table_current): the operator dictionaries and every
+handler of the two AST mappers, the class body of CompileMapper and CompiledExpression statement by
+statement are re-read from the source on every run; stream `table-run` runs the compiled table
+interpreters on the regenerated tables against the real code, stream `function-def` ties the model
+of to_evaluatable_python_function (signature and returned AST before ast.unparse).
+
 Source text of compile() under Python's grammar (theorems PV.C13.compile_source_groups_*): stream
 `py-table` ties the hand-written Python precedence table of the parser model to CPython's own
 tokenizer and ast.parse; stream `source-groups` checks on the real compile() that every tree inside
@@ -32,7 +38,23 @@ from ..oracles.pyeval import is_safe, outcome, pyeval
 from ..sexp import (A, Atom, App, Unencodable, dumps, env_to_sx, exc_to_sx,
                     expr_to_sx, loads, q, sx_shrinks, sx_to_env, sx_to_expr, value_to_sx)
 from ..syntax import SyntaxGen, three_level, two_level
-from .c06 import extract, kind, minimal_failing_subterm, syntax_children
+from .c06 import extract as extract_syntax_tables
+from .c06 import kind, minimal_failing_subterm, syntax_children
+
+
+
+def extract(ctx=None):
+    """T-gen: precedence / lexer tables (C06), the class table and `DependencyMapper.__init__`
+    (C04 / C09: dispatch and dependency flags the code-generation tables rest on), and the handler
+    tables of the code generators themselves (extract/codegen.py)"""
+    extract_syntax_tables(ctx)
+    from extract.analysis import extract_analysis
+    from extract.codegen import extract_codegen
+    from extract.traversal import extract_traversal
+    extract_traversal(ctx)
+    extract_analysis(ctx)
+    return extract_codegen(ctx)
+
 
 warnings.filterwarnings("ignore", category=SyntaxWarning)
 warnings.filterwarnings("ignore", category=DeprecationWarning)
@@ -988,6 +1010,11 @@ PY_STRINGS = [
 ]
 
 
+NONE_NODES = ['(Subscript (Name "v") nil)', '(Subscript (Subscript (Name "v") nil) (Name "i"))',
+              '(BinOp (Name "a") Add nil)', '(UnaryOp USub nil)', '(Tuple (Name "a") nil)',
+              '(Call (Name "f") ((Subscript (Name "v") nil)) ())', '(Subscript nil (Name "i"))']
+
+
 class PyAstGen:
     """random Python expression ASTs built directly (every binary, unary, boolean and comparison
     operator, chains, conditionals, calls, subscripts, attributes): the importer's whole table"""
@@ -1046,6 +1073,10 @@ class FromAstStream(Stream):
         for _ in range(1200 * n):
             sx = dumps(ast_to_sx(pg.gen(rng.randint(1, 4))))
             yield {"ast": sx, "envs": envs_payload(rng, 2), "src": "python-ast"}
+        # hand-made nodes `ast.parse` never produces (found by the regenerated handler table:
+        # `none_or_rec` passes a None slice through; a None operand has no handler)
+        for sx in NONE_NODES:
+            yield {"ast": sx, "envs": [], "src": "none-nodes"}
         from pymbolic.interop.ast import to_python_ast
         for src, e in gen_exprs(rng, tier, 500 * n, 200 * n, two=False):
             try:
@@ -1756,6 +1787,165 @@ class SourceGroupsStream(Stream):
 # }}}
 
 
+# {{{ T-gen: the table interpreters on the regenerated tables vs the real code
+
+class TableRunStream(Stream):
+    """The compiled table interpreters of lean/PV/Model/CodegenTable.lean run on the tables that
+    extract/codegen.py regenerated from the source on THIS run, against the real code: ties the
+    reader and the meaning of the handler languages to the code (the hand-written models are tied
+    by the streams above and proved equal to these interpreters: PV.C13.*_eq_table_current).
+    When an edit of the source breaks those theorems, this stream still agrees (the table follows
+    the source) while the streams above report the disagreeing / failing input."""
+    name = "table-run"
+
+    def cases(self, rng, tier):
+        n = 1 if tier == "quick" else 10
+        # importer
+        fa = FromAstStream()
+        k = 0
+        for pl in fa.cases(random.Random(rng.random()), "quick"):
+            k += 1
+            if pl["src"] in ("none-nodes",) or k % (4 if tier == "quick" else 1) == 0:
+                yield {"kind": "fromast", "ast": pl["ast"]}
+        # exporter
+        for e in ALIAS:
+            s = encodable(e)
+            if s is not None:
+                yield {"kind": "toast", "expr": s}
+        for src, e in gen_exprs(rng, tier, 250 * n, 120 * n, two=(tier != "quick"), three=60 * n):
+            s = encodable(e)
+            if s is not None:
+                yield {"kind": "toast", "expr": s}
+        # compile: source, argument list, pickle round trip
+        cs = CompileStream()
+        k = 0
+        for pl in cs.cases(random.Random(rng.random()), "quick"):
+            k += 1
+            if pl["src"] in ("directed", "context", "cse-directed") or k % (6 if tier == "quick" else 1) == 0:
+                yield {"kind": "compile", "expr": pl["expr"], "listed": pl["listed"]}
+        for names in (["a"], ["b", "a"], [], ["x_1", "x"]):
+            yield {"kind": "lambda", "args": names + ["zz"], "body": "zz"}
+
+    def request(self, pl):
+        k = pl["kind"]
+        if k == "fromast":
+            return f"(c13t-fromast {pl['ast']})"
+        if k == "toast":
+            return f"(c13t-toast {pl['expr']})"
+        if k == "compile":
+            return f"(c13t-compile ({' '.join(q(n) for n in pl['listed'])}) {pl['expr']})"
+        return f"(c13t-lambda ({' '.join(q(n) for n in pl['args'])}) {q(pl['body'])})"
+
+    def run_impl(self, pl):
+        k = pl["kind"]
+        if k == "fromast":
+            return FromAstStream.run_impl(self, pl)
+        if k == "toast":
+            return ToAstStream.run_impl(self, pl)
+        if k == "compile":
+            return CompileStream.run_impl(self, {**pl, "envs": [], "src": "table"})
+        # the text handed to eval(): `_compile` looks `eval` up in its module globals first
+        import pymbolic.compiler as pc
+        from pymbolic import compile as pcompile
+        seen = {}
+
+        def spy(text, ctx):
+            seen["text"] = text
+            return eval(text, ctx)  # noqa: S307
+        had = "eval" in pc.__dict__
+        old = pc.__dict__.get("eval")
+        pc.eval = spy
+        try:
+            pcompile(p.Variable(pl["body"]), list(pl["args"]))
+        finally:
+            if had:
+                pc.eval = old
+            else:
+                del pc.eval
+        return q(seen.get("text", ""))
+
+    def agree(self, model, impl, pl):
+        if pl["kind"] == "compile":
+            return CompileStream().agree(model, impl, pl)
+        return super().agree(model, impl, pl)
+
+    def nontrivial_key(self, pl, model, impl):
+        return pl["kind"] + "|" + (pl.get("expr") or pl.get("ast") or ",".join(pl.get("args", [])))
+
+    def stats(self, pl, mo, io, acc):
+        acc[pl["kind"]] = acc.get(pl["kind"], 0) + 1
+
+
+def real_function_def(e):
+    """the `ast.Module` to_evaluatable_python_function hands to `ast.unparse` (spied on), as
+    (keyword-only names, other parameter names, returned expression)"""
+    from pymbolic.interop.ast import to_evaluatable_python_function
+    seen = {}
+    orig = ast.unparse
+
+    def spy(node):
+        seen["mod"] = node
+        return orig(node)
+    ast.unparse = spy
+    try:
+        to_evaluatable_python_function(e, "fn")
+    finally:
+        ast.unparse = orig
+    fd = seen["mod"].body[0]
+    a = fd.args
+    other = [x.arg for x in a.posonlyargs + a.args] + [x.arg for x in (a.vararg, a.kwarg) if x]
+    ret = fd.body[0]
+    if not (len(fd.body) == 1 and isinstance(ret, ast.Return)) or any(d is not None for d in a.kw_defaults):
+        raise ValueError("unexpected function shape")
+    return [x.arg for x in a.kwonlyargs], other, ret.value
+
+
+class FunctionDefStream(Stream):
+    """to_evaluatable_python_function() up to `ast.unparse`: the keyword-only parameter list and
+    the returned AST vs the model `funcSigModel` (= the regenerated table, PV.C13.
+    funcSig_eq_table_current); the table interpreter itself on every third case"""
+    name = "function-def"
+
+    def cases(self, rng, tier):
+        n = 1 if tier == "quick" else 10
+        k = 0
+        for e in ALIAS:
+            s = encodable(e)
+            if s is not None:
+                yield {"expr": s, "table": True}
+        for src, e in gen_exprs(rng, tier, 350 * n, 150 * n, two=(tier != "quick"), three=60 * n):
+            s = encodable(e)
+            if s is not None:
+                k += 1
+                yield {"expr": s, "table": k % 3 == 0}
+
+    def request(self, pl):
+        return f"({'c13t-funcsig' if pl['table'] else 'c13-funcsig'} {pl['expr']})"
+
+    def run_impl(self, pl):
+        e = sx_to_expr(loads(pl["expr"]))
+        try:
+            kwonly, other, ret = real_function_def(e)
+        except RecursionError:
+            raise
+        except Exception as ex:
+            if "Unsupported" in type(ex).__name__:
+                return "(err Unsupported)"
+            return impl_exc(ex)
+        if other:
+            return f"(other-parameters {other})"
+        return f"(sig ({' '.join(q(a) for a in kwonly)}) {dumps(ast_to_sx(ret))})"
+
+    def nontrivial_key(self, pl, model, impl):
+        return pl["expr"] if impl.startswith("(sig") else None
+
+    def stats(self, pl, mo, io, acc):
+        k = io.split(" ")[0] + (" " + io.split(" ")[1].rstrip(")") if io.startswith("(err") else "")
+        acc[k] = acc.get(k, 0) + 1
+
+# }}}
+
+
 def probes():
     from pymbolic import compile as pcompile, evaluate
     from pymbolic.interop.ast import (ASTToPymbolic, to_evaluatable_python_function,
@@ -1849,7 +2039,7 @@ def probes():
 PROP = Prop(
     id="C13",
     title="Generated Python code computes what the evaluator computes",
-    lean_targets=["PV.Properties.C13"],
+    lean_targets=["PV.Properties.C13", "PV.Properties.C13Table"],
     partial={"PV.C13.toAst_run_value_partial":
              "executing the generated AST equals the evaluator on the fragment AstOk: or/and need "
              "two or more boolean operands (Python returns an operand; a one-value BoolOp is "
@@ -1877,7 +2067,7 @@ PROP = Prop(
     extractors=[extract],
     streams=[CompileStream(), ArgOrderStream(), ToAstStream(), FunctionSourceStream(),
              RoundTripStream(), FromAstStream(), DenAstStream(), PyTableStream(),
-             SourceGroupsStream()],
+             SourceGroupsStream(), TableRunStream(), FunctionDefStream()],
     probes=[probes],
     trusted_base=["Lean 4.33 kernel; axioms propext, Classical.choice, Quot.sound only",
                   "CPython (eval, compile, ast.unparse, pickle) executes the generated programs: "
@@ -1887,7 +2077,12 @@ PROP = Prop(
                   "table PV.C13.pythonPrec: tied to CPython's tokenizer and ast.parse on every run "
                   "(streams py-table, source-groups; converter harness/props/c07.py: py_tree)",
                   "harness/oracles/pyeval.py (independent reference interpreter)",
-                  "extract/prec.py (stringifier precedences read from the live module)"],
+                  "extract/prec.py (stringifier precedences read from the live module)",
+                  "extract/codegen.py (ast reader of pymbolic/interop/ast.py and pymbolic/compiler.py: "
+                  "operator dictionaries, handler bodies, the class body of CompileMapper, "
+                  "CompiledExpression statement by statement; unknown shapes are errors) and the "
+                  "meaning of its table languages (lean/PV/Model/CodegenTable.lean): tied to the real "
+                  "code by the streams table-run and function-def on every run"],
     assumptions=["exact environments (int, bool, Fraction, tuples, uninterpreted functions); "
                  "results involving floats are not compared",
                  "a path that refuses an expression by raising (NotImplementedError, invalid "
